@@ -32,6 +32,7 @@ func runC01(c *core.Ctx) {
 	c.Clause("C01.5 every site observing a higher term adopts it and steps down")
 	h.stepDownOnHigherTerm("C01.5 step-down")
 	h.leaderReleaseCleansUp("C01.6 ex-leader-stops-acting", "update-channel")
+	h.stateDriver("C01.7 state-driver")
 }
 
 func runC17(c *core.Ctx) {
@@ -59,4 +60,5 @@ func runC17(c *core.Ctx) {
 	h.leaderReleaseCleansUp("C17.8b leadership-end", "leader-hint")
 	h.leaderCommitSkipJustified("C17.6c leader-commit-skip-justified")
 	h.configActionProgress("C17.9 membership-progress", "progress")
+	h.commitReadyReevaluates("C17.9b commit-ready-reevaluates")
 }
